@@ -386,7 +386,7 @@ func sealFrame(r *hx.Rand, side int, k crypto.AuthKey, session int64, msgID int6
 
 func connSection(c *hx.Ctx) {
 	r := c.Rng
-	for i := 0; i < c.N(12, 200); i++ {
+	for i := 0; i < c.N(12, 60); i++ {
 		for _, pfs := range []bool{true, false} {
 			temp, perm, third := r.Bytes(256), r.Bytes(256), r.Bytes(256)
 			session := int64(r.U64())
@@ -449,17 +449,17 @@ func main() {
 	short := mkBase(r, 0, 0)
 	recv := 1 - short.side
 	run(c, tc{Class: "valid", Side: recv, Key: short.key, KeyID: short.keyID, CT: short.ct, Expect: "accept"}, true)
-	step := c.N(17, 5)
+	step := c.N(17, 9)
 	for bit := 0; bit < len(short.ct)*8; bit++ {
 		run(c, tc{Class: "bit-flip:" + region(bit), Side: recv, Key: short.key, KeyID: short.keyID, CT: flip(short.ct, bit), Expect: "reject"}, emitEvery(bit, step))
 	}
 	// 2. many base messages x mutant classes
-	nb := c.N(64, 2000)
+	nb := c.N(64, 600)
 	for i := 0; i < nb; i++ {
 		plen := 4 * r.Intn(33)
 		b := mkBase(r, plen, -1)
 		recv := 1 - b.side
-		em := func(j int) bool { return i < c.N(18, 60) && j == i%6 } // a rotating sample goes to Coq
+		em := func(j int) bool { return i < c.N(18, 30) && j == i%6 } // a rotating sample goes to Coq
 		run(c, tc{Class: "valid", Side: recv, Key: b.key, KeyID: b.keyID, CT: b.ct, Expect: "accept"}, i < c.N(4, 20))
 		// 2a. single random bit per region, and random multi-bit
 		for j := 0; j < 6; j++ {
@@ -568,7 +568,7 @@ func main() {
 	// 3c. the same claims at the connection level (mtproto.Conn read path), with and without PFS
 	connSection(c)
 	// 4. arbitrary short / random inputs (totality)
-	for i := 0; i < c.N(40, 1000); i++ {
+	for i := 0; i < c.N(40, 400); i++ {
 		n := r.Intn(120)
 		b := r.Bytes(256)
 		var kk crypto.Key
